@@ -168,13 +168,13 @@ def kernel_mutation(s, m):
     r = s.r
     ty = s.mesh_alive.get(m, "P")
     ops = [("AddV", 6), ("AddE", 3), ("DelV", 3), ("DelE", 2), ("GC", 2), ("SwapV", 2), ("Clear0", 1), ("Clear1", 1), ("AddVs", 1), ("EnDef", 1)]
-    if ty == "P": ops += [("AddFV", 3), ("DelF", 1), ("AddC", 1), ("DelC", 1)]
+    # no AddC here: a halfface in two live cells is outside the kernel's contract (the only cell comes from build_topology)
+    if ty == "P": ops += [("AddFV", 3), ("DelF", 1), ("DelC", 1)]
     o = r.weighted(ops)
     if o == "AddV": s.k(m, "AddV")
     elif o == "AddVs": s.k(m, "AddVs", 1 + r.below(3))
     elif o == "AddE": s.k(m, "AddE", r.below(8), r.below(8), 1)
     elif o == "AddFV": a = r.below(8); s.k(m, "AddFV", a, a + 1, a + 2)
-    elif o == "AddC": s.k(m, "AddC", 0, r.below(8), r.below(8), r.below(8))
     elif o in ("DelV", "DelE", "DelF", "DelC"): s.k(m, o, r.below(8))
     elif o == "GC": s.k(m, "GC")
     elif o == "SwapV": s.k(m, "SwapV", r.below(8), r.below(8))
